@@ -54,6 +54,7 @@ def P(pid):
             ('RF-C hash binding (domain, map, e)', lambda c: rf_hash.rule_hash_binding(c, rf_hash.BBS_TABLE, BBS_SCOPE,
                 only_fns=hash_fns('calculate_domain', 'messages_to_scalar', 'map_message_to_scalar_as_hash', 'core_sign', 'hash_to_scalar')), 20),
             ('RF-D verify gates', lambda c: rf_gates.rule_accept_requirements(c, only(T.VERIFY_REQS, T.SIG + 'verify', T.BSIG + 'verify_blind_sign')), 2),
+            ('RF-D the verifiers refuse the values the octet decoders refuse (identity key, identity A, e = 0)', lambda c: rf_gates.rule_accept_requirements(c, T.VERIFY_VALUE_REQS), 6),
             ('RF-B interface constants', lambda c: rf_consts.rule_interface_constants(c, [T.SIG + 'verify', T.BSIG + 'verify_blind_sign']), 8),
             ('RF-T size thresholds (uniform behaviour in L / lengths)', rf_frame.rule_size_thresholds, 3),
             ('RF-D checked constructors only', rf_frame.rule_checked_constructors, 8),
@@ -75,6 +76,7 @@ def P(pid):
                 only_fns=hash_fns('proof_challenge_calculate', 'calculate_domain')), 15),
             ('RF-D proof_verify gates', lambda c: rf_gates.rule_accept_requirements(c, only(T.VERIFY_REQS, T.POK + 'proof_verify')), 4),
             ('RF-M disclosed messages stay paired with their indexes', rf_codec.rule_paired_lists_keep_their_order, 5),
+            ('RF-L the blind verifier keeps signer and committed positions apart', rf_frame.rule_blind_verifier_index_ranges, 4),
             ('RF-D identity exclusion', lambda c: rf_gates.rule_accept_requirements(c, only(T.IDENTITY_REQS, T.POK + 'proof_verify')), 3),
             ('RF-K every proof field gates', lambda c: rf_gates.rule_all_fields_gate(c, T.POK + 'proof_verify', 'self', 'BBSplusPoKSignature'), 8),
             ('RF-D checked constructors only', rf_frame.rule_checked_constructors, 8),
@@ -86,6 +88,7 @@ def P(pid):
     elif pid == 'C06':
         R = [
             ('RF-B committed index translation and signer generator count use L + 1', rf_codec.rule_index_translation, 4),
+            ('RF-L the blind verifier keeps signer and committed positions apart', rf_frame.rule_blind_verifier_index_ranges, 4),
             ('RF-D identity / zero guards test the value that is used afterwards', rf_gates.rule_guards_test_final_value, 4),
             ('RF-Y failures of fallible operations are never discarded', rf_errors.rule_errors_not_discarded, 60),
             ('RF-B pass-through arguments keep their role', rf_consts.rule_argument_roles, 40),
@@ -153,6 +156,7 @@ def P(pid):
             ('RF-G2 role positions (commit)', rf_rand.rule_role_projection, 6),
             ('RF-T size thresholds (uniform behaviour in L / lengths)', rf_frame.rule_size_thresholds, 3),
             ('RF-B index translation agreement', rf_codec.rule_index_translation, 2),
+            ('RF-L the blind verifier keeps signer and committed positions apart', rf_frame.rule_blind_verifier_index_ranges, 4),
             ('RF-F blind generation panic census', lambda c: rf_panic.rule_panic_census(c, entries=[T.POK + 'blind_proof_gen', T.BSIG + 'blind_sign'], with_serde=False, min_functions=12), 35),
             ('RF-D success values are computed from the inputs they bind', lambda c: rf_frame.rule_result_binding(c, only=['blind_sign','commit','blind_proof_gen']), 15),
             ('RF-L index lists are validated against their own message list', rf_frame.rule_index_lists_validated, 5),
@@ -198,6 +202,8 @@ def P(pid):
             ('RF-Y failures of fallible operations are never discarded', rf_errors.rule_errors_not_discarded, 60),
             ('RF-E decoder framing', rf_frame.rule_decoder_framing, 7),
             ('RF-D identity / zero exclusion in decoders', lambda c: rf_gates.rule_accept_requirements(c, T.DECODER_REQS), 6),
+            ('RF-D the serde decoders refuse what the octet decoders refuse', rf_codec.rule_serde_checked_decoders, 6),
+            ('RF-N placeholder variants cannot be built from serialised data', rf_codec.rule_placeholder_variants_not_deserialisable, 4),
             ('RF-D checked constructors only', rf_frame.rule_checked_constructors, 8),
             ('RF-N reader/writer agreement', rf_codec.rule_reader_writer, 2),
             ('RF-N serde writer/reader agreement (derive output)', rf_codec.rule_serde_symmetry, 25),
@@ -215,6 +221,8 @@ def P(pid):
             ('RF-C I2OSP widths', rf_hash.rule_i2osp_width, 4),
             ('RF-A absent == empty in every function of the layer', rf_consts.rule_option_normalisation_all, 50),
             ('RF-S no shared state (schedule quantifier)', rf_consts.rule_shared_state, 3),
+            ('RF-D the verifiers refuse the values the octet decoders refuse (identity key, identity A, e = 0)', lambda c: rf_gates.rule_accept_requirements(c, T.VERIFY_VALUE_REQS), 6),
+            ('RF-D the serde decoders refuse what the octet decoders refuse', rf_codec.rule_serde_checked_decoders, 6),
         ]
         meta['explanation'] = ('Value-level conformance with the drafts cannot be decided statically and is not claimed. Decided clauses: the three size '
                                'limits are enforced exactly (boundary values proven), constants equal the draft table, every hash ingredient set and '
@@ -268,6 +276,7 @@ def P(pid):
             ('RF-J carried commitments are equated', CL.rule_carried_commitment_equalities, 6),
             ('RF-K every ZKPoK leaf gates acceptance', lambda c: CL.rule_every_leaf_gates(c, which=('zkpok',)), 40),
             ('RF-K the verifier pins the representative of every transmitted integer', lambda c: CL.rule_canonical_representatives(c, CL.REPRESENTATIVE_SPECS['C14']), 40),
+            ('RF-K list fields of the proof have the number of entries the statement requires', lambda c: CL.rule_list_fields_counted(c, CL.REPRESENTATIVE_SPECS['C14']), 4),
             ('RF-D sub-verifiers cannot be switched off by the proof', CL.rule_checks_not_skippable_by_artefact, 8),
             ('RF-P cursor discipline', CL.rule_cursor_discipline, 10),
             ('RF-W acceptance conditions test the combinations of inputs tested before', lambda c: rf_gatesets.rule_gate_sets(c, group='cl03', only=['verify_proof']), 2),
@@ -288,6 +297,7 @@ def P(pid):
             ('RF-J carried commitments are equated', CL.rule_carried_commitment_equalities, 6),
             ('RF-K every PoKSignature leaf gates acceptance', lambda c: CL.rule_every_leaf_gates(c, which=('pok',)), 40),
             ('RF-K the verifier pins the representative of every transmitted integer', lambda c: CL.rule_canonical_representatives(c, CL.REPRESENTATIVE_SPECS['C15']), 40),
+            ('RF-K list fields of the proof have the number of entries the statement requires', lambda c: CL.rule_list_fields_counted(c, CL.REPRESENTATIVE_SPECS['C15']), 3),
             ('RF-D sub-verifiers cannot be switched off by the proof', CL.rule_checks_not_skippable_by_artefact, 8),
             ('RF-P cursor discipline (revealed / hidden position bookkeeping)', CL.rule_cursor_discipline, 10),
             ('RF-W acceptance conditions test the combinations of inputs tested before', lambda c: rf_gatesets.rule_gate_sets(c, group='cl03', only=['proof_verify']), 2),
@@ -344,20 +354,20 @@ ALL = ['C%02d' % i for i in range(1, 20)]
 # unfix-* = reverse of a `fix:` commit of /repo; seeded/* = changes written by independent sub-agents (see DESIGN.md section 6).
 CONTROLS = {
     'C01': ['seeded/C01-a/patch.diff', 'seeded/C01-b/patch.diff', 'seeded/C01-c/patch.diff', 'seeded/C01-d/patch.diff', 'seeded/C01-e/patch.diff'],
-    'C02': ['seeded/C02-a/patch.diff', 'seeded/C04-a/patch.diff', 'seeded/C02-b/patch.diff', 'seeded/C02-c/patch.diff', 'seeded/C02-d/patch.diff', 'seeded/C02-e/patch.diff'],
+    'C02': ['selftest/mutants/unfix-1a8aa8f.patch', 'seeded/C02-a/patch.diff', 'seeded/C04-a/patch.diff', 'seeded/C02-b/patch.diff', 'seeded/C02-c/patch.diff', 'seeded/C02-d/patch.diff', 'seeded/C02-e/patch.diff'],
     'C03': ['seeded/C03-a/patch.diff', 'seeded/C03-c/patch.diff', 'seeded/C03-d/patch.diff', 'seeded/C03-e/patch.diff'],
-    'C04': ['selftest/mutants/unfix-4e31b69.patch', 'selftest/mutants/unfix-1c8b8b0.patch', 'seeded/C04-a/patch.diff', 'seeded/C04-b/patch.diff', 'seeded/C04-c/patch.diff', 'seeded/C04-d/patch.diff', 'seeded/C04-e/patch.diff'],
+    'C04': ['selftest/mutants/unfix-4e31b69.patch', 'selftest/mutants/unfix-1c8b8b0.patch', 'selftest/mutants/unfix-99e0eb6.patch', 'selftest/mutants/unfix-44a689e.patch', 'seeded/C04-a/patch.diff', 'seeded/C04-b/patch.diff', 'seeded/C04-c/patch.diff', 'seeded/C04-d/patch.diff', 'seeded/C04-e/patch.diff'],
     'C05': ['seeded/C05-a/patch.diff', 'seeded/C05-b/patch.diff', 'seeded/C05-c/patch.diff', 'seeded/C05-d/patch.diff', 'seeded/C05-e/patch.diff'],
-    'C06': ['seeded/C06-a/patch.diff', 'seeded/C06-b/patch.diff', 'seeded/C06-c/patch.diff', 'seeded/C06-d/patch.diff', 'seeded/C06-e/patch.diff'],
+    'C06': ['selftest/mutants/unfix-99e0eb6.patch', 'selftest/mutants/unfix-44a689e.patch', 'seeded/C06-a/patch.diff', 'seeded/C06-b/patch.diff', 'seeded/C06-c/patch.diff', 'seeded/C06-d/patch.diff', 'seeded/C06-e/patch.diff'],
     'C07': ['seeded/C07-a/patch.diff', 'seeded/C07-b/patch.diff', 'seeded/C07-c/patch.diff', 'seeded/C07-d/patch.diff', 'seeded/C07-e/patch.diff'],
     'C08': ['selftest/mutants/unfix-928b770.patch', 'selftest/mutants/unfix-05eab20.patch', 'selftest/mutants/unfix-6597d81.patch', 'seeded/C08-a/patch.diff', 'seeded/C08-b/patch.diff', 'seeded/C08-c/patch.diff', 'selftest/mutants/work-unbounded-L.patch', 'seeded/C08-d/patch.diff', 'seeded/C08-e/patch.diff'],
-    'C09': ['selftest/mutants/unfix-928b770.patch', 'selftest/mutants/unfix-4e31b69.patch', 'seeded/C09-a/patch.diff', 'seeded/C09-b/patch.diff', 'seeded/C09-c/patch.diff', 'seeded/C09-d/patch.diff', 'seeded/C09-e/patch.diff'],
-    'C10': ['seeded/C10-a/patch.diff', 'seeded/C10-b/patch.diff', 'seeded/C10-c/patch.diff', 'seeded/C10-d/patch.diff', 'seeded/C10-e/patch.diff'],
+    'C09': ['selftest/mutants/unfix-928b770.patch', 'selftest/mutants/unfix-4e31b69.patch', 'selftest/mutants/unfix-1a8aa8f.patch', 'selftest/mutants/unfix-07e52dd.patch', 'selftest/mutants/unfix-dc0c0a4.patch', 'seeded/C09-a/patch.diff', 'seeded/C09-b/patch.diff', 'seeded/C09-c/patch.diff', 'seeded/C09-d/patch.diff', 'seeded/C09-e/patch.diff'],
+    'C10': ['selftest/mutants/unfix-1a8aa8f.patch', 'seeded/C10-a/patch.diff', 'seeded/C10-b/patch.diff', 'seeded/C10-c/patch.diff', 'seeded/C10-d/patch.diff', 'seeded/C10-e/patch.diff'],
     'C11': ['seeded/C11-a/patch.diff', 'seeded/C11-b/patch.diff', 'seeded/C11-c/patch.diff', 'seeded/C11-d/patch.diff', 'seeded/C11-e/patch.diff'],
     'C12': ['selftest/mutants/unfix-ae1f505.patch', 'seeded/C12-a/patch.diff', 'seeded/C12-b/patch.diff', 'seeded/C12-c/patch.diff', 'seeded/C12-d/patch.diff', 'seeded/C12-e/patch.diff'],
-    'C13': ['selftest/mutants/unfix-4faa0f0.patch', 'selftest/mutants/unfix-d5d2c0e.patch', 'seeded/C13-a/patch.diff', 'seeded/C13-b/patch.diff', 'seeded/C13-c/patch.diff', 'seeded/C13-d/patch.diff', 'seeded/C13-e/patch.diff'],
-    'C14': ['selftest/mutants/unfix-2e6b8d5.patch', 'selftest/mutants/unfix-2d01ace.patch', 'seeded/C14-a/patch.diff', 'seeded/C14-b/patch.diff', 'seeded/C14-c/patch.diff', 'seeded/C14-d/patch.diff', 'seeded/C14-e/patch.diff'],
-    'C15': ['selftest/mutants/unfix-2d01ace.patch', 'selftest/mutants/unfix-85ebe8e.patch', 'seeded/C15-a/patch.diff', 'seeded/C15-b/patch.diff', 'seeded/C15-c/patch.diff', 'seeded/C15-d/patch.diff', 'seeded/C15-e/patch.diff'],
+    'C13': ['selftest/mutants/unfix-4faa0f0.patch', 'selftest/mutants/unfix-d5d2c0e.patch', 'selftest/mutants/unfix-d882cd3.patch', 'seeded/C13-a/patch.diff', 'seeded/C13-b/patch.diff', 'seeded/C13-c/patch.diff', 'seeded/C13-d/patch.diff', 'seeded/C13-e/patch.diff'],
+    'C14': ['selftest/mutants/unfix-2e6b8d5.patch', 'selftest/mutants/unfix-2d01ace.patch', 'selftest/mutants/unfix-7b76bb5.patch', 'seeded/C14-a/patch.diff', 'seeded/C14-b/patch.diff', 'seeded/C14-c/patch.diff', 'seeded/C14-d/patch.diff', 'seeded/C14-e/patch.diff'],
+    'C15': ['selftest/mutants/unfix-2d01ace.patch', 'selftest/mutants/unfix-85ebe8e.patch', 'selftest/mutants/unfix-164e21b.patch', 'seeded/C15-a/patch.diff', 'seeded/C15-b/patch.diff', 'seeded/C15-c/patch.diff', 'seeded/C15-d/patch.diff', 'seeded/C15-e/patch.diff'],
     'C16': ['selftest/mutants/unfix-b52ed69.patch', 'selftest/mutants/unfix-e0980eb.patch', 'selftest/mutants/unfix-6c89f9a.patch', 'seeded/C16-a/patch.diff', 'seeded/C16-b/patch.diff', 'seeded/C16-c/patch.diff', 'seeded/C16-d/patch.diff', 'seeded/C16-e/patch.diff'],
     'C17': ['seeded/C17-a/patch.diff', 'seeded/C17-b/patch.diff', 'seeded/C17-c/patch.diff', 'seeded/C17-d/patch.diff', 'seeded/C17-e/patch.diff'],
     'C18': ['seeded/C18-a/patch.diff', 'seeded/C18-b/patch.diff', 'seeded/C18-c/patch.diff', 'seeded/C18-d/patch.diff', 'seeded/C18-e/patch.diff'],
